@@ -25,13 +25,13 @@ def plan(tier, seed):
     n = 16
     out = []
     for i in range(n):
-        s = {"shard": i, "n_el": 60 if tier == "quick" else 2500, "n_og": 8 if tier == "quick" else 150,
-             "n_gctm": 3 if tier == "quick" else 60, "exhaustive_L_upto": 12 if tier == "quick" else 25}
+        s = {"shard": i, "n_el": 60 if tier == "quick" else 25000, "n_og": 8 if tier == "quick" else 1200,
+             "n_gctm": 3 if tier == "quick" else 500, "exhaustive_L_upto": 12 if tier == "quick" else 25}
         if i == 14:
             s["env"] = {"NUMBA_BOUNDSCHECK": "1"}
         if i == 15:
             s["env"] = {"NUMBA_DISABLE_JIT": "1"}
-            s["n_og"] = 3 if tier == "quick" else 20
+            s["n_og"] = 3 if tier == "quick" else 60
         out.append(s)
     return out
 
